@@ -6,7 +6,7 @@ MAXK = 512
 KEYS = ['a', 'b', 'c', 'd', 'e', 'key-6', 'k7']
 WIDE_KEYS = KEYS + [f'z{i}' for i in range(80)]      # enough distinct keys for the thread-local table to rehash several times
 # operations during which the executing thread's collector cannot run (no registration of a new object)
-QUIET_OPS = {'tget', 'tmem', 'x', 'lookup', 'pub', 'perr', 'lock', 'trylock', 'winc', 'unguarded', 'rd', 'spawn', 'join', 'selfjoin', 'disabled'}
+QUIET_OPS = {'tget', 'tmem', 'x', 'lookup', 'pub', 'perr', 'lock', 'trylock', 'winc', 'wthrow', 'unguarded', 'rd', 'rdarg', 'spawn', 'join', 'selfjoin', 'disabled'}
 ERRNOS = ['0', 'EINVAL', 'EDEADLK', 'EBUSY', 'EPERM', 'ESRCH', 'EAGAIN']
 NK = 6
 
@@ -38,6 +38,8 @@ class Th:
         self.mheld = set()       # workers whose Thread object this thread made with new(Thread, f) and keeps in a stack variable
         self.maker = None        # the thread that made this thread's Thread object with new(Thread, f) (None: raw)
         self.gone = False        # that Thread object has been finalised: the thread is never named again
+        self.argpin = set()      # own objects handed to a thread as arguments: kept on the stack in every collection, never deleted
+        self.nargs = 0           # arguments of the current run
 
 def foreign_mark_in_source():
     """what the translator read from Thread_Mark / GC_Recurse: does the mark phase walk the table of any Thread object it meets?"""
@@ -59,10 +61,10 @@ def gen_schedule(rng, nworkers, nevents, mode, flavour, managed=0.0, foreign_mar
     lines = [f'M {mode}', f'N {nworkers}', f'S {rng.randrange(1 << 30)}']
     out = lines.append
     w = dict(new=6, newroot=1, newx=2, del_=3, xdel=1, gc=2, churn=2, tset=3, tget=3, tmem=1, trem=2, x=4, lookup=3, pub=2, perr=1,
-             work=0, lock=4, trylock=3, winc=3, unguarded=1, rd=1, spawn=3, join=2, selfjoin=1, end=1, disabled=1)
-    if flavour == 'locks': w.update(lock=12, trylock=8, winc=8, new=2, x=1, unguarded=3)
+             work=0, lock=4, trylock=3, winc=3, wthrow=1, unguarded=1, rd=1, rdarg=1, spawn=3, join=2, selfjoin=1, end=1, disabled=1)
+    if flavour == 'locks': w.update(lock=12, trylock=8, winc=8, wthrow=4, new=2, x=1, unguarded=3)
     if flavour == 'gc': w.update(new=12, del_=6, gc=6, churn=5, tset=6, trem=4, lock=1, trylock=1, winc=1)
-    if flavour == 'exn': w.update(x=16, perr=3, tget=5, trem=4, selfjoin=3)
+    if flavour == 'exn': w.update(x=16, perr=3, tget=5, trem=4, selfjoin=3, wthrow=4)
     if flavour == 'work': w.update(work=8, churn=3)
     if free: w.update(unguarded=0, disabled=0, work=max(w['work'], 2))
     spawned = []
@@ -90,6 +92,8 @@ def gen_schedule(rng, nworkers, nevents, mode, flavour, managed=0.0, foreign_mar
                 out(f'{t.tid} trem {key}'); del t.tls[key]; k0 += 1
         out(f'{t.tid} end'); t.phase = 'done'
         t.alive &= t.roots; t.stack = set()
+        for u in sorted(t.mheld): th[u].gone = True      # the teardown finalises the Thread objects this thread made
+        t.mheld = set()
         return k0 + 1
     guard = 0
     while n < nevents and guard < nevents * 30:
@@ -114,11 +118,21 @@ def gen_schedule(rng, nworkers, nevents, mode, flavour, managed=0.0, foreign_mar
             if again and (not un or rng.random() < 0.4): u = rng.choice(again)
             elif un: u = un[0]
             else: continue
-            if T == 0 and u.phase == 'unborn' and rng.random() < managed and not quiet_needed(t):
-                # the documented usage: var x = new(Thread, f); call(x);  (only main does it in generated cases: a worker that
-                # returned while it holds x would free the Thread object under the running thread)
+            if (T == 0 or not free) and u.phase == 'unborn' and rng.random() < managed and not quiet_needed(t):
+                # the documented usage: var x = new(Thread, f); call(x);  (free mode: only main does it; under the baton workers
+                # do it too — a worker returns only when no thread whose Thread object it holds is live, its teardown then
+                # finalises those Thread objects)
                 out(f'{T} newthr {u.tid}'); t.mheld.add(u.tid); u.maker = T; n += 1
-            out(f'{T} spawn {u.tid}'); u.phase = 'ready'; u.joined = False; u.nops = 0; spawned.append(u.tid); n += 1
+            # arguments: own objects the caller keeps reachable (KF-C13-thread-arg-collected: nothing marks through t->args) —
+            # roots, or (main only: it never returns) objects it keeps on its stack in every later collection and never deletes
+            cand = sorted(t.roots & t.alive) + ([k for k in alive_objs(t) if k in t.stack and k not in t.roots] if T == 0 else [])
+            if cand and rng.random() < 0.4:
+                ks = rng.sample(cand, min(len(cand), rng.choice([1, 1, 2])))
+                for k in ks: t.argpin.add(k); t.pinned.add(k)
+                out(f"{T} call {u.tid} {' '.join(map(str, ks))}"); u.nargs = len(ks)
+            else:
+                out(f'{T} spawn {u.tid}'); u.nargs = 0
+            u.phase = 'ready'; u.joined = False; u.nops = 0; spawned.append(u.tid); n += 1
         elif op == 'join':
             if free and (T != 0 or t.held or t.try_open): continue      # a joiner that holds a Mutex the thread needs would deadlock
             done = [u for u in th if u.phase == 'done' and not u.joined and not u.gone]
@@ -139,6 +153,7 @@ def gen_schedule(rng, nworkers, nevents, mode, flavour, managed=0.0, foreign_mar
             out(f'{T} join {T}'); n += 1
         elif op == 'end':
             if T == 0 or t.held or t.try_open or t.pending_ld is not None or t.nops < 6: continue
+            if any(th[u].phase in ('ready', 'running') for u in t.mheld): continue     # its teardown would free the Thread object of a live thread
             if rng.random() < 0.5: continue
             n += emit_end(t)
         elif op in ('new', 'newroot', 'newx'):
@@ -157,7 +172,7 @@ def gen_schedule(rng, nworkers, nevents, mode, flavour, managed=0.0, foreign_mar
             u, k = rng.choice(others); out(f'{T} del {u} {k}'); n += 1
         elif op == 'gc':
             stack_objs = [k for k in alive_objs(t) if k in t.stack and k not in t.roots]
-            keep = [k for k in stack_objs if rng.random() < 0.6]
+            keep = [k for k in stack_objs if k in t.argpin or rng.random() < 0.6]
             for k in stack_objs:
                 if k not in keep:
                     t.stack.discard(k)
@@ -209,7 +224,7 @@ def gen_schedule(rng, nworkers, nevents, mode, flavour, managed=0.0, foreign_mar
             kind = rng.randrange(4); size = rng.choice([40, 120, 300]) if not free else rng.choice([200, 600, 1500])
             if kind == 2: size //= 3
             out(f'{T} work {kind} {rng.randrange(1, 50)} {size}'); n += 1
-        elif op in ('lock', 'trylock', 'winc'):
+        elif op in ('lock', 'trylock', 'winc', 'wthrow'):
             top = max([m for m, _ in t.held] + [m for m in t.try_open], default=-1)
             # release something first, often
             if (t.held or t.try_open) and rng.random() < 0.55:
@@ -227,6 +242,14 @@ def gen_schedule(rng, nworkers, nevents, mode, flavour, managed=0.0, foreign_mar
             if op == 'winc':
                 if not free and m in holder: continue
                 out(f'{T} winc {m} {m}'); n += 1
+            elif op == 'wthrow':
+                # a with block left by an exception: the thread stays inside (released later by unlock)
+                if not free and m in holder:
+                    if rng.random() < 0.5: out(f'{T} wthrow {m}'); n += 1    # blocked: the event does not happen
+                    continue
+                out(f'{T} wthrow {m}'); n += 1
+                t.held.append((m, 'l')); holder[m] = T
+                if rng.random() < 0.5: out(f'{T} ld {m}'); t.pending_ld = m; n += 1
             elif op == 'lock':
                 if not free and m in holder:
                     if rng.random() < 0.5: out(f'{T} lock {m}'); n += 1      # blocked: the event does not happen
@@ -244,6 +267,9 @@ def gen_schedule(rng, nworkers, nevents, mode, flavour, managed=0.0, foreign_mar
                     if rng.random() < 0.7: out(f'{T} ld {m}'); t.pending_ld = m; n += 1
         elif op == 'unguarded':
             c = rng.randrange(8, 12); out(f"{T} {rng.choice(['ld', 'st'])} {c}"); n += 1
+        elif op == 'rdarg':
+            if T == 0: continue
+            out(f'{T} rdarg {rng.randrange(0, t.nargs + 1)}'); n += 1
         elif op == 'rd':
             if free: continue
             out(f'{T} rd {rng.randrange(nworkers + 1)}'); n += 1
@@ -272,10 +298,12 @@ def gen_schedule(rng, nworkers, nevents, mode, flavour, managed=0.0, foreign_mar
         for m in reversed(t.try_open): out(f'{T} unlock {m}')
         for m, how in reversed(t.held): out(f"{T} {'unlock' if how == 'l' else 'leave'} {m}")
         t.try_open = []; t.held = []
-    for t in th[1:]:
-        if t.phase == 'running':
+    pend = [t for t in th[1:] if t.phase == 'running']
+    while pend:          # a thread that holds Thread objects returns after the threads they belong to
+        ready_ = [t for t in pend if not any(th[u].phase in ('ready', 'running') for u in t.mheld)] or pend[:1]
+        for t in ready_:
             if rng.random() < 0.9: out(f'{t.tid} pub {rng.randrange(1, 100000)}')
-            emit_end(t)
+            emit_end(t); pend.remove(t)
     for t in th[1:]:
         if t.phase == 'done' and not t.joined and not t.gone: out(f'0 join {t.tid}'); out(f'0 rd {t.tid}'); out(f'0 rdo {t.tid}'); t.joined = True
     out('0 gc ' + ' '.join(f'T{u}' for u in sorted(th[0].mheld)))
@@ -307,6 +335,8 @@ class C13(Spec):
                   'unconditional when every struct Thread is raw; REFUTED without it, C13_noninterference_refuted = KF-C13-mark-foreign-tls: GC_Recurse -> Thread_Mark walks the table of any '
                   'Thread object the mark phase meets; C13_noninterference_guarded_variant / C13_guarded_variant_loses_objects: with the withdrawn repair 80c795e - Thread_Mark guarded by self is current(Thread) - '
                   'the full statement holds in the model, but an object held only through the table of a Thread object that is not running is finalised while the table still holds it, which is why commit 0a0ad73 withdrew it) '
+                  '; C13_noninterference_walks (round 3) - the same conclusion under the NARROWER decidable hypothesis IsolatedN, exactly the logical territory of the finding: the table of a LIVE thread never decides what a collection of another thread finalises '
+                  '(walkNeutral); collections by the maker between call(x) and join(x) and tables left behind by finished threads are inside; the solo run is handed the tables of the not-live Thread objects its collections reach (projM); C13_isolated_is_narrower: Isolated implies IsolatedN '
                   '- each thread\'s final component (collector registry, exception record, thread-local table, ledger of '
                   'finalised objects) and every outcome of its local operations equal those of the thread running alone on its projection of the execution, whatever the '
                   'others do and whatever the shared class cache contains (C13_cache_transparent); C13_frame - a step of one thread changes no other thread\'s component; '
@@ -315,7 +345,7 @@ class C13(Spec):
                   'C13_counter_exact - non-atomic increments made inside sections are never lost; C13_join / C13_join_full / C13_join_current_source / C13_join_publishes - every step of a run of t precedes the return of '
                   'join t by any thread and every later read (until the Thread object is called again) yields t\'s final published value (= its solo value); join(current(Thread)) raises ResourceError '
                   '(C13_join_self_raises, C13_join_edeadlk_raises about the extracted table, C13_join_repair_in_current_source); the OLD variant without the EDEADLK case is refuted: C13_join_old_refuted, was KF-C13-join-edeadlk, fixed by 484991f; C13_join_publishes_own_object - a result object the thread allocated is '
-                  'usable by the joiner iff the thread\'s collector had not finalised it; C13_join_publishes_object_refuted = KF-C13-join-result-finalised: the teardown finalises every object made with plain new; C13_teardown_own / C13_teardown_step / C13_foreign_del - a collector (del, '
+                  'usable by the joiner iff the thread\'s collector had not finalised it; C13_join_publishes_object_refuted = KF-C13-join-result-finalised: the teardown finalises every object made with plain new; C13_args_partial / C13_args_delivered - an object handed to a thread as an argument (call(x, obj): Thread_Call keeps a raw copy of the tuple, G.args) is read back live by the thread whenever every collection of its owner finds it elsewhere (owner\'s stack, thread-local values, root: decidable ArgsSafe); C13_args_refuted = KF-C13-thread-arg-collected: without that the spawner\'s collector finalises the argument while the thread uses it (full statement C13_args_statement kept); C13_teardown_own / C13_teardown_step / C13_foreign_del - a collector (del, '
                   'collection, the teardown in Thread_Init_Run) only ever finalises objects its own thread allocated; C13_teardown_survives_destructor_exceptions - with the epilogue '
                   'order of the current source (collector before exception record, read from the source on every run) no del, collection or thread teardown ever runs a destructor '
                   'without the thread\'s exception record (C13_teardown_old_order_refuted: the order before commit 7de4bbc crashes on a 4-event schedule). C13_source_shape_as_modelled, C13_join_repair_in_current_source and '
@@ -325,14 +355,14 @@ class C13(Spec):
                   'and by free-running 2-16 real threads under schedule noise comparing all local outcomes plus digest-vs-solo, ledger, in-section, counter and join oracles.')
     level_note = ('PARTIAL by nature: the theorems are about the bookkeeping (per-thread state is reached only through current(Thread) - frame, join and mutex theorems read back that '
                   'shape of the model, which is tied to the code by the extracted source texts and the correspondence runs; Mutex = holder machine; join after '
-                  'the epilogue) in a sequentially consistent model at operation granularity. Two known findings, each with its full statement kept and refuted in the model: '
-                  'KF-C13-mark-foreign-tls, KF-C13-join-result-finalised (KF-C13-join-edeadlk is repaired: full statement proved for the current source, OLD variant refuted). Not exhibited by the model and covered only by running: real data races (the walk of a foreign '
+                  'the epilogue) in a sequentially consistent model at operation granularity. Three known findings, each with its full statement kept and refuted in the model: '
+                  'KF-C13-mark-foreign-tls, KF-C13-join-result-finalised, KF-C13-thread-arg-collected (KF-C13-join-edeadlk is repaired: full statement proved for the current source, OLD variant refuted). Not exhibited by the model and covered only by running: real data races (the walk of a foreign '
                   'thread-local table is an atomic read in the model; `races` counts where it would be a race) '
                   'and memory-model effects, the pthread implementation, signals, the conservative stack scan (a collection is modelled with an arbitrary marked set). '
                   'Trusted: Lean kernel; harness/h_thr.c + lean/Driver/Thr.lean comparison (testing); pthread and libc.')
     rule = ('op files are schedules (tid, op): (a) scripted interleavings (mode sched) of 1-8 workers + main generated by simulating the lock/join machine, including '
             'objects whose destructors do try/throw/catch, Thread objects that are called again after being joined, Thread objects made the documented way by main (newthr: new(Thread, f) kept in a stack '
-            'variable; the maker\'s collections - explicit and the real threshold collections - then walk that worker\'s thread-local table, which in half of the cases holds up to 87 distinct keys and refers to the maker\'s objects), threads that join themselves (ResourceError), result objects handed to the joiner (pubo/rdo), deliberately disabled events (blocked lock/join, unlock by a non-holder, ops of unborn/finished threads, reused serials, ill-formed lines), executed on real '
+            'variable; the maker\'s collections - explicit and the real threshold collections - then walk that worker\'s thread-local table, which in half of the cases holds up to 87 distinct keys and refers to the maker\'s objects), threads that join themselves (ResourceError), result objects handed to the joiner (pubo/rdo), objects handed to a thread as arguments and read back in the thread function (call U K / rdarg I), with blocks left by an exception (wthrow M: the Mutex stays locked by the thread), Thread objects made by workers (newthr by any thread under the baton; a worker returns only after the threads whose Thread objects it holds), deliberately disabled events (blocked lock/join, unlock by a non-holder, ops of unborn/finished threads, reused serials, ill-formed lines), executed on real '
             'Cello threads in exactly that order; every event outcome is compared with the model; (b) free-running schedules (mode free) of 2-16 real threads with yields/spins '
             'at op boundaries, in malloc/calloc and in the pthread calls: all local outcomes are compared with the model, synchronisation outcomes are masked; workloads '
             '(container-, allocation-, exception-, TLS-heavy) are compared with their solo digests. non-trivial = at least two threads ran and the case contains a contended '
@@ -348,7 +378,9 @@ class C13(Spec):
                    'KF-C13-mark-foreign-tls: outside the baton (free-running cases) the thread that made a worker\'s Thread object with new(Thread, f) executes no operation that can collect between call and join of that worker (the driver\'s `races` count is checked to be 0 on every free-running case); only main makes such Thread objects; Thread objects are not stored as thread-local values',
                    'KF-C13-join-result-finalised: result objects handed to the joiner (pubo) are roots that are never deleted',
                    'mutual joins are not generated (glibc 2.36 deadlocks on them instead of reporting EDEADLK)',
-                   'arguments handed to a thread are raw objects (Thread_Call stores a raw copy of the tuple; nobody marks what it refers to)')
+                   'KF-C13-thread-arg-collected: objects handed to a thread as arguments (call U K) are kept reachable by their owner - roots, or objects main keeps on its stack in every collection and never deletes (the driver\'s `arg-unsafe` count, the steps outside the hypothesis ArgsSafe, is checked to be 0 on every generated case)',
+                   'an uncaught exception in a worker ends the whole process (Exception_Error -> exit): a plain counter-example to "never diverts another thread\'s control flow", by design of the library; not generated',
+                   'not modelled: Thread_Assign / copy of a Thread object, Thread objects as thread-local values, set(x, key, v) on a Thread object other than current(Thread) (the keep layer of C18 has it), mutual joins')
     def cases(self, rng, tier, boost=1):
         quick = tier == 'quick'
         cs = []
@@ -385,7 +417,7 @@ class C13(Spec):
                 acc['out_' + p[4]] = acc.get('out_' + p[4], 0) + 1
         for l in core.lines_with('S ', m_out):
             for kv in l.split():
-                for key in ('races=', 'not-isolated=', 'managed='):
+                for key in ('races=', 'not-isolated=', 'walk-decides=', 'arg-unsafe=', 'managed='):
                     if kv.startswith(key) and kv[len(key):].isdigit(): acc['model_' + key[:-1]] = acc.get('model_' + key[:-1], 0) + int(kv[len(key):])
         for l in core.lines_with('I ', c_out):
             for kv in l.split():
@@ -400,6 +432,11 @@ class C13(Spec):
             for l in core.lines_with('S ', m_out):
                 m = [kv for kv in l.split() if kv.startswith('races=')]
                 if m and m[0] != 'races=0': return (-1, '<generator>', f'free-running case in the territory of KF-C13-mark-foreign-tls: {l}')
+        # generated cases keep the arguments of live threads reachable (hypothesis ArgsSafe of C13_args_partial)
+        if case.name.startswith(('sched', 'free')):
+            for l in core.lines_with('S ', m_out):
+                m = [kv for kv in l.split() if kv.startswith('arg-unsafe=')]
+                if m and m[0] != 'arg-unsafe=0': return (-1, '<generator>', f'generated case in the territory of KF-C13-thread-arg-collected: {l}')
         return None
     def model_selfcheck(self, case, m_out):
         for l in core.lines_with('S ', m_out):
